@@ -331,8 +331,17 @@ func (e newTorrentEvent) apply(s *state) {
 		ok = false
 	}
 	if !ok {
-		var err error
-		ctrl, err = s.addTorrent(e.namespace, e.torrent, true)
+		// e.torrent was opened on the caller's goroutine before this event was
+		// applied. A removal applied in between has deleted its files (and a
+		// later request may have re-created them empty), which leaves e.torrent
+		// with stale in-memory piece statuses. Always start from what is on disk.
+		t, err := s.sched.torrentArchive.GetTorrent(e.namespace, e.torrent.Digest())
+		if err != nil {
+			s.log("torrent", e.torrent).Infof("Torrent removed before it was added: %s", err)
+			e.errc <- ErrTorrentRemoved
+			return
+		}
+		ctrl, err = s.addTorrent(e.namespace, t, true)
 		if err != nil {
 			e.errc <- err
 			return
